@@ -72,6 +72,10 @@ func (b *balanceCache) Get(account store.Account) (*big.Int, error) {
 
 	// Miss (outside of cache lock)
 	val, err := getter(account)
+	if u, ok := err.(unconfirmedBalance); ok {
+		// Good for now, but not to be kept.
+		return u.balance, nil
+	}
 	if err != nil {
 		return nil, err
 	}
